@@ -26,6 +26,7 @@ same observation.
 """
 from __future__ import annotations
 
+import bisect as _bisect
 import itertools
 import json as _json
 import re as _re
@@ -455,7 +456,7 @@ class C10(Prop):
     thorough_budget = 24000
     quick_deadline_s = 100
     thorough_deadline_s = 800
-    all_branches = ["p:seq", "p:reorder", "p:rate", "h:raise", "h:ok", "c:hook-raise", "c:hook-ok", "f:rate", "f:replay", "f:allow", "f:block", "f:rx-hit", "f:sub-hit", "l:off", "l:bad", "l:new",
+    all_branches = ["b:bulk", "p:seq", "p:reorder", "p:rate", "h:raise", "h:ok", "c:hook-raise", "c:hook-ok", "f:rate", "f:replay", "f:allow", "f:block", "f:rx-hit", "f:sub-hit", "l:off", "l:bad", "l:new",
                     "l:replace", "g:hit", "g:miss", "c:allow", "c:block-sev", "c:block-err", "c:block-acute",
                     "c:cooling-low", "i:lvl0", "i:lvl1", "i:lvl2", "i:lvl3", "i:lvl4", "v:len-short", "v:len-long",
                     "v:null", "v:ctl", "v:json-size", "v:json-depth", "v:json-dec", "v:json-val", "v:json-rec"]
@@ -827,7 +828,7 @@ class C10(Prop):
                 sigs.append(s)
                 lines.append("addsig " + s)
             elif op == "adv":
-                lines.append(f"adv {rng.choice([125_000, 1_000_000, 30_000_000, 59_000_000, 59_875_000, 60_000_000, 60_125_000, 61_000_000])}")
+                lines.append(f"adv {rng.choice([125_000, 1_000_000, 30_000_000, 59_000_000, 59_875_000, 60_000_000, 60_125_000, 61_000_000, 3_600_000_000, 86_400_000_000])}")
             else:
                 lines.append(op)
         return {"lines": lines, "note": "random membrane history"}
@@ -993,6 +994,88 @@ class C10(Prop):
         lines.append("stats")
         return {"lines": lines, "note": "retuned live membrane (rate limit / hook), burst in one window"}
 
+    def _long_histories(self, tier):
+        """histories LONG enough to cross an internal bound of the membrane (replay memory, request window, audit
+        trail, learned patterns - none is bounded in the current source, the property bounds none of them), and clock
+        gaps of hours to a year between a block and the relaxation of the rules"""
+        big = [5000] if tier == "quick" else [5000, 12000]
+        jb, zeta = self._sigtok("jailbreak", 3, False), self._sigtok("zeta-token", 2, False)
+        rxs = [x for x in self.mb_builtin if x.endswith("/1") and self.inst_of.get(self._parse_sig(x)[::2])]
+        table = [jb] + rxs[-2:] + [x for x in self.mb_builtin if x.endswith("/0")][:2]
+        table = [x for x in self.mb_builtin if x in table]          # shipped order, a sub-table of the class table
+        rx_inst = (self.inst_of.get(self._parse_sig(rxs[-1])[::2]) or ["jailbreak"])[0] if rxs else "jailbreak"
+        early = ["please use the zeta-token now", "ZETA-TOKEN in capitals", "a jailbreak, early", rx_inst + " (early)"]
+        out = []
+        for n in big:
+            # (1) replay memory across n further blocked inputs, then the rules are relaxed
+            for relax in (["forget " + hexs("zeta-token"), "thr 3"], ["thrattr 3"]):
+                ls = [" ".join(["mem", "1", "none", "1"] + table), "learn " + zeta]
+                ls += ["filter " + hexs(e) for e in early]
+                ls += [f"bulk {n} - {hexs(' jailbreak attempt, ' + rx_inst)}"] + relax + ["setsig 0 " + self._sigtok("never-seen", 1, False)]
+                ls += ["filter " + hexs(e) for e in early]
+                ls += ["filter " + hexs(f"{i} jailbreak attempt, " + rx_inst) for i in (0, 1, n // 2, n - 1)] + ["stats"]
+                out.append({"lines": ls, "note": f"replay memory across {n} further blocked inputs, rules relaxed afterwards"})
+                if tier == "quick":
+                    break
+        for n in ([2500] if tier == "quick" else [2500, 6000]):
+            # (2) the request window holds as many admissions as the limit allows
+            r = n - n // 10
+            out.append({"lines": [f"mem 2 {r} 1 " + jb, f"bulk {n} {hexs('request ')} -", "adv 59875000", "bulk 3 " + hexs("late ") + " -",
+                                  "adv 125000", f"bulk {n // 50} {hexs('next window ')} -", "stats"],
+                        "note": f"rate limit {r}: {n} calls inside one window, then the window moves on"})
+        # (3) many learned patterns, the first ones are still active (quick: 1500)
+        for n in ([1500] if tier == "quick" else [1500, 5000]):
+            out.append({"lines": ["mem 2 none 1", f"bulklearn {n} {hexs('tok-')} 2"]
+                        + ["filter " + hexs(f"say tok-{i}!") for i in (0, 1, n // 2, n - 1)] + ["export" if n <= 1500 else "stats",
+                           "forget " + hexs("tok-0"), "filter " + hexs("say TOK-0?"), "stats"],
+                        "note": f"{n} learned patterns: every one of them stays active"})
+        # (4) the same long run twice: everything blocked the first time is refused from memory the second time
+        for n in (300, 1100):
+            out.append({"lines": ["mem 2 none 1 " + jb, f"bulk {n} {hexs('jailbreak #')} -", "forget " + hexs("jailbreak"), "thr 3",
+                                  "setsig 0 " + self._sigtok("never-seen", 1, False), f"bulk {n} {hexs('jailbreak #')} -", "stats"],
+                        "note": f"{n} inputs blocked, rules relaxed, the same {n} inputs again"})
+        # (5) clock gaps between the block and the relaxation / the replay
+        for gap in (3_600_000_000, 86_399_875_000, 86_400_000_000, 7 * 86_400_000_000, 366 * 86_400_000_000):
+            for relax in (["forget " + hexs("zeta-token")], ["thr 3"]):
+                for rate in ("none", "2"):
+                    ls = [f"mem 2 {rate} 1 " + jb, "learn " + zeta, "filter " + hexs(early[0]), "filter " + hexs(early[2]),
+                          f"adv {gap}"] + relax + ["filter " + hexs(early[0]), f"adv {gap}", "filter " + hexs(early[2]),
+                                                  "filter " + hexs(early[0]), "filter " + hexs("hello"), "stats"]
+                    out.append({"lines": ls, "note": "a clock gap of an hour .. a year between a block and the replay"})
+        return out
+
+    def _gen_longrun(self, rng):
+        """a medium-long run on one membrane (20..400 calls in one line: blocked, allowed or rate-limited), rules
+        relaxed, clock moved, then replays of inputs from before and from inside the run"""
+        n = rng.choice([20, 50, 128, 129, 257, 400])
+        builtin = [s for s in self.mb_builtin if rng.random() < 0.25]
+        pool = [self._sigtok(p_, rng.randint(1, 3), False) for p_ in ("zebra-protocol", "omega handshake", "ab")] \
+            + [self._sigtok(r_, rng.randint(1, 3), True) for r_ in CUSTOM_RX[:4]]
+        a, b = rng.sample(pool, 2)
+        thr = rng.choice([1, 1, 2])
+        rate = rng.choice(["none", "none", "none", str(n // 2), str(n + 5)])
+        lines = [" ".join(["mem", str(thr), rate, "1"] + builtin + [b]), "learn " + a]
+        ia, ib = self._instance(rng, a), self._instance(rng, b)
+        early = [self._embed(rng, ia, True), ia.upper() + "!", "see " + ib]
+        lines += ["filter " + hexs(e) for e in early]
+        k = rng.random()
+        pre, suf = ("", " " + ia) if k < 0.4 else ("", " " + ib) if k < 0.7 else (ib + " #", "") if k < 0.85 else ("benign #", "")
+        lines.append(f"bulk {n} {hexs(pre)} {hexs(suf)}")
+        if rng.random() < 0.5:
+            lines.append(f"adv {rng.choice([60_000_000, 3_600_000_000, 86_400_000_000, 30 * 86_400_000_000])}")
+        lines += rng.choice([["forget " + a.split("/")[0]], ["thr 3"], ["forget " + a.split("/")[0], "thrattr 3"],
+                             ["adaptive 0", "forget " + a.split("/")[0]], ["import " + a.split("/")[0] + "/0/" + a.split("/")[2]]])
+        if rate != "none":
+            lines.append("rate none" if rng.random() < 0.7 else "adv 61000000")
+        for e in early:
+            lines.append("filter " + hexs(e))
+        for i in rng.sample(range(n), 3) + [0, n - 1]:
+            lines.append("filter " + hexs(pre + str(i) + suf))
+        if rng.random() < 0.3:
+            lines.append(f"bulk {n} {hexs(pre)} {hexs(suf)}")
+        lines.append("stats")
+        return {"lines": lines, "note": "medium-long run on one membrane, rules relaxed, replays"}
+
     def _json_text(self, rng, md, ms, deep_ok):
         k = rng.random()
         if k < 0.3:
@@ -1118,7 +1201,7 @@ class C10(Prop):
             elif op == "ihook":
                 lines.append(f"ihook {rng.choice(['none', 'ok', 'R', 'K', 'E'])}")
             elif op == "adv":
-                lines.append(f"adv {rng.choice([1_000_000, 59_000_000, 60_000_000, 61_000_000, 900_000_000, 899_875_000])}")
+                lines.append(f"adv {rng.choice([1_000_000, 59_000_000, 60_000_000, 61_000_000, 900_000_000, 899_875_000, 900_125_000, 86_400_000_000, 30 * 86_400_000_000])}")
             else:
                 lines.append(op)
         return {"lines": lines, "note": "random innate history"}
@@ -1128,7 +1211,7 @@ class C10(Prop):
         for i in range(n):
             huge_ok = huge_budget > 0 and rng.random() < (0.02 if tier == "quick" else 0.01)
             k = rng.random()
-            c = self._gen_retune(rng) if k < 0.08 else self._gen_flood(rng) if k < 0.15 else self._gen_colony(rng) \
+            c = self._gen_longrun(rng) if k < 0.025 else self._gen_retune(rng) if k < 0.08 else self._gen_flood(rng) if k < 0.15 else self._gen_colony(rng) \
                 if k < 0.21 else self._gen_swap(rng) if k < 0.27 else self._gen_acute(rng) if k < 0.31 else self._gen_membrane(rng, tier, huge_ok) if k < 0.62 else self._gen_innate(rng, tier, huge_ok)
             if huge_ok and any(len(l) > 100_000 for l in c["lines"]):
                 huge_budget -= 1
@@ -1241,7 +1324,11 @@ class C10(Prop):
             for a in range(1, L + 1):
                 for b in range(1 + (a % stride), L + 1, stride):
                     flood(2, [first] * a + [1 - first] * b + [first] * 9999)
-        return [{"name": f"flood: 2 threads call filter() at one instant with rate_limit-1 requests already admitted; every "
+        return [{"name": "long histories on one membrane: 5000+ further blocked inputs between a block and the relaxation of "
+                         "the rules (replay memory), 5000+ calls inside one rate window under a limit of 4500+, 1500+ learned "
+                         "patterns, a long run repeated after the rules were relaxed; clock gaps of an hour .. a year between "
+                         "a block and its replay x forget / threshold x rate limit", "cases": self._long_histories(tier)},
+                {"name": f"flood: 2 threads call filter() at one instant with rate_limit-1 requests already admitted; every "
                          f"schedule with one context switch (limits 1-3, either thread first, switch after each of the "
                          f"{L} lines a call executes) and schedules with two context switches (limit 2, "
                          f"{'every third' if stride > 1 else 'every'} second switch point)", "cases": floods},
@@ -1436,6 +1523,17 @@ class C10(Prop):
                                f"hk={hk}")
                 elif op == "par":
                     obs.append(self._run_par(m, t, line, lines, idx))
+                elif op == "bulk":
+                    obs.append(self._run_bulk(m, t, line, lines, idx))
+                elif op == "bulklearn":
+                    n = int(t[1])
+                    if m is None or n > 30000:
+                        obs.append("bad-op")
+                        continue
+                    pre = unhexs(t[2])
+                    for i in range(n):
+                        m.learn_threat(pre + str(i), MB.ThreatLevel(int(t[3])), "learned in bulk", False)
+                    obs.append(f"ok ln={m.get_statistics()['learned_patterns']}")
                 elif op == "learn":
                     pat, lvl, rx = self._parse_sig(t[1])
                     try:
@@ -1649,6 +1747,51 @@ class C10(Prop):
                 f"tb={st['total_blocked']} ln={st['learned_patterns']} bh={st['blocked_hashes']}"
                 + (" leaked=" + ",".join(leaked) if leaked else ""))
 
+    def _run_bulk(self, m, t, line, lines, idx):
+        """`bulk <n> <pre> <suf>`: n filter() calls on the one membrane, inputs pre + str(i) + suf (pairwise distinct) -
+        a history long enough to cross any bound on what the membrane remembers.  Recorded after `@`: per regex key
+        the run-length vector of what the real `re` returned in call i."""
+        n = int(t[1])
+        if m is None or m.on_threat is not None or n > 30000:
+            return "bad-op"
+        pre, suf = unhexs(t[2]), unhexs(t[3])
+        heads, results, bits = [], [], {}
+        for i in range(n):
+            content = pre + str(i) + suf
+            k0 = len(self.rxlog)
+            try:
+                r = m.filter(self.Signal(content=content))
+            except Exception as e:
+                r = None
+                heads.append(f"raise:{type(e).__name__}")
+            entries = self.rxlog[k0:]
+            calls, _ = self._rx_obs(content, entries)
+            seen = {}
+            for (_m, pat, _f, _s, res) in entries:
+                seen.setdefault(rxkey(pat), res)
+            for k, v in seen.items():
+                bits.setdefault(k, [False] * n)[i] = bool(v)
+            results.append(r)
+            if r is not None:
+                ms = sorted(self._sigtok(x.pattern, x.level.value, x.is_regex) for x in r.matched_signatures)
+                heads.append(f"{show_bool(r.allowed)} {r.threat_level.value} m=[{','.join(ms)}] rx={calls}")
+            if len(self.rxlog) > 200_000:
+                del self.rxlog[:]
+        segs = []
+        for h in heads:
+            if segs and segs[-1][0] == h:
+                segs[-1][1] += 1
+            else:
+                segs.append([h, 1])
+        log = m.get_audit_log()
+        st = m.get_statistics()
+        tail_ = log[len(log) - n:] if n else []
+        inlog = len(tail_) == n and all(a is b for a, b in zip(tail_, results))
+        table = " ".join(f"{k}={rle(['1' if b else '0' for b in v])}" for k, v in bits.items())
+        lines[idx] = (line + " @ " + table).rstrip()
+        return ("bulk | " + " | ".join(f"{k}x {h}" for h, k in segs) + f" | in={show_bool(inlog)} audit={len(log)} "
+                f"tf={st['total_filtered']} tb={st['total_blocked']} ln={st['learned_patterns']} bh={st['blocked_hashes']}")
+
     # ----------------------------------------------------------------------------------------------------------
     # oracle: the property text on what the real code did (independent of the Lean model)
     # ----------------------------------------------------------------------------------------------------------
@@ -1802,8 +1945,8 @@ class C10(Prop):
             # (judged by the limit visible through m.rate_limit at this moment; admissions made while no limit
             #  was in force are not counted)
             if allowed and S.rate is not None:
-                S.allowed_times.append(now)
-                k = sum(1 for x in S.allowed_times if now - WINDOW_US < x <= now)
+                S.allowed_times.append(now)          # `now` never decreases: the list stays sorted
+                k = len(S.allowed_times) - _bisect.bisect_right(S.allowed_times, now - WINDOW_US)
                 if k > S.rate:
                     out.append(Violation("rate_window", f"<= {S.rate} admitted in the last 60 s", f"{k}", idx))
             if not allowed and not rate_or_replay:
@@ -1930,6 +2073,44 @@ class C10(Prop):
                                              part[:80], idx))
                     judge(content, f, part, idx)
                 if not any(p_.startswith("raise:") for p_ in parts):
+                    want = [f"audit={S.audit}", f"tf={S.n_calls}", f"tb={S.n_blocked}"]
+                    got = [x for x in tail if x.startswith(("audit=", "tf=", "tb="))]
+                    if got != want:
+                        out.append(Violation("bookkeeping_complete", " ".join(want), " ".join(got), idx))
+            elif op == "bulklearn" and o.startswith("ok"):
+                if S.adaptive:
+                    for i in range(int(t[1])):
+                        S.learned[unhexs(t[2]) + str(i)] = (unhexs(t[2]) + str(i), int(t[3]), False)
+                S.epoch_blocked = []
+                if o.split(" ")[1] != f"ln={len(S.learned)}":
+                    out.append(Violation("bookkeeping_complete", f"ln={len(S.learned)}", o[:60], idx))
+            elif op == "bulk" and o.startswith("bulk | "):
+                # a long run of calls on the one membrane: every decision is judged like a single call
+                segs = o.split(" | ")
+                tail = segs[-1].split(" ")
+                heads = []
+                for part in segs[1:-1]:
+                    k_, h_ = part.split("x ", 1)
+                    heads.extend([h_] * int(k_))
+                pre_, suf_ = unhexs(t[2]), unhexs(t[3])
+                raised = False
+                for i, h_ in enumerate(heads):
+                    S.audit += 1
+                    S.n_calls += 1
+                    if h_.startswith("raise:"):
+                        raised = True
+                        out.append(Violation("never_raises", "a FilterResult for every input string", h_[:80], idx))
+                        continue
+                    f = h_.split(" ")
+                    if f[0] == "0":
+                        S.n_blocked += 1
+                    judge(pre_ + str(i) + suf_, f, f"call {i} of the bulk line: " + h_, idx)
+                    if len(out) > 40:
+                        break
+                if not raised and len(heads) == int(t[1]) and len(out) <= 40:
+                    if "in=1" not in tail:
+                        out.append(Violation("audit_complete", "the audit trail ends with the decisions of this run, in order",
+                                             " ".join(tail)[:80], idx))
                     want = [f"audit={S.audit}", f"tf={S.n_calls}", f"tb={S.n_blocked}"]
                     got = [x for x in tail if x.startswith(("audit=", "tf=", "tb="))]
                     if got != want:
